@@ -586,13 +586,27 @@ Section Cookies.
 End Cookies.
 
 (* ------------- the property oracle accepts the model ------------- *)
+(* what AES-SIV gives for the key: equal seals were made under keys with the same
+   first (S2V/CMAC) half, and under the same key when something was encrypted *)
+Definition seal_inj_siv (seal : bytes -> bytes -> option bytes -> bytes -> bytes) : Prop :=
+  forall k n ad p k' n' ad' p',
+    seal k n ad p = seal k' n' ad' p' ->
+    mac_half k = mac_half k' /\ (p <> [] -> k = k') /\ n = n' /\ ad = ad' /\ p = p'.
+
+Lemma seal_inj_siv_of : forall seal : bytes -> bytes -> option bytes -> bytes -> bytes,
+  (forall k n ad p k' n' ad' p', seal k n ad p = seal k' n' ad' p' -> k = k' /\ n = n' /\ ad = ad' /\ p = p') ->
+  seal_inj_siv seal.
+Proof.
+  intros seal H k n ad p k' n' ad' p' E. destruct (H _ _ _ _ _ _ _ _ E) as [A [B [C D]]].
+  subst. repeat split; auto.
+Qed.
+
 Section Oracle.
   Variable seal : bytes -> bytes -> option bytes -> bytes -> bytes.
   Variable open : bytes -> bytes -> option bytes -> bytes -> option bytes.
   Hypothesis open_seal : forall k n ad p, open k n ad (seal k n ad p) = Some p.
   Hypothesis open_only_seal : forall k n ad c p, open k n ad c = Some p -> c = seal k n ad p.
-  Hypothesis seal_inj : forall k n ad p k' n' ad' p',
-    seal k n ad p = seal k' n' ad' p' -> k = k' /\ n = n' /\ ad = ad' /\ p = p'.
+  Hypothesis seal_inj : seal_inj_siv seal.
   Hypothesis seal_len : forall k n ad p, length (seal k n ad p) = (16 + length p)%nat.
 
   Definition model_accepts (b key : bytes) (dir : Z) (reqid : bytes) : bool :=
@@ -633,7 +647,8 @@ Section Oracle.
     destruct V as [p [[Hd [W [Hk [Hn [pt Hc]]]]] Huid]].
     destruct (Hu p _ _ _ Hd Hc) as [h [Hin [Hct Hdir]]].
     destruct (Hh h Hin) as [Gn Gp [hpt Gc] [gcs [gn Gu]]].
-    rewrite Gc, Hc in Hct. apply seal_inj in Hct. destruct Hct as [Ek [En [Ead Ept]]].
+    assert (Ect : h_ct h = p_ct p) by exact Hct.
+    rewrite Gc, Hc in Hct. apply seal_inj in Hct. destruct Hct as [Emac [Ekey [En [Ead Ept]]]].
     inversion Ead as [Epre].
     assert (Epos : h_pos h = p_pos p).
     { apply (f_equal (@length Z)) in Epre. rewrite !firstn_length in Epre.
@@ -641,14 +656,18 @@ Section Oracle.
     destruct (wire_auth_16 _ _ W Hn) as [A1 [A2 A3]].
     apply existsb_exists. exists h. split; auto.
     unfold justifies, untampered. rewrite Epos.
-    assert (T1 : bytes_eqb (h_key h) key = true) by (apply bytes_eqb_eq; auto).
+    assert (T1 : key_accepts h key = true).
+    { unfold key_accepts. apply orb_true_iff. destruct hpt as [|x hpt'].
+      - right. apply andb_true_iff. split.
+        + apply Nat.eqb_eq. rewrite Gc, seal_len. reflexivity.
+        + apply bytes_eqb_eq. exact Emac.
+      - left. apply bytes_eqb_eq. apply Ekey. discriminate. }
     assert (T2 : (h_dir h =? dir) = true) by (apply Z.eqb_eq; auto).
     assert (T3 : (p_pos p <=? length b)%nat = true) by (apply Nat.leb_le; destruct W as [_ _ H1 _ _ _]; lia).
     assert (T4 : bytes_eqb (firstn (p_pos p) b) (firstn (p_pos p) (h_bytes h)) = true).
     { apply bytes_eqb_eq. rewrite <- Epos at 2. rewrite Epre. reflexivity. }
     assert (T5 : (be16 b (p_pos p + 4) =? lenz (h_nonce h)) = true).
     { apply Z.eqb_eq. unfold lenz. rewrite Gn. apply to_nat_pos in A1; [|lia]. exact A1. }
-    assert (Ect : h_ct h = p_ct p) by (rewrite Gc, Hc; congruence).
     assert (T6 : (be16 b (p_pos p + 6) =? lenz (h_ct h)) = true).
     { apply Z.eqb_eq. unfold lenz. rewrite Ect.
       pose proof (f_equal (@length Z) A3) as L. rewrite take_pad_length in L.
@@ -883,7 +902,10 @@ Lemma c10_packet_oracle : forall seal open, ideal_aead seal open ->
   (forall h, In h hs -> model_accepts open (h_bytes h) (h_key h) (h_dir h) (h_uid h) = true) ->
   (dir = 0 \/ dir = 1) ->
   C10_packet_ok hs b key dir reqid (model_accepts open b key dir reqid) = true.
-Proof. intros seal open [A [B [C D]]]. intros. eapply model_meets_packet_oracle; eauto. Qed.
+Proof.
+  intros seal open [A [B [C D]]]. intros.
+  eapply model_meets_packet_oracle; eauto. apply seal_inj_siv_of. exact C.
+Qed.
 
 Lemma c10_cookie_oracle : forall seal open, ideal_aead seal open ->
   forall c0 key0 keyid rnd cb0 cb key,
@@ -965,6 +987,7 @@ Lemma c10_listener_sound : forall seal open, ideal_aead seal open ->
                    cookie_open open cb mk = Ok sc.
 Proof.
   intros seal open [A [B [C D]]] getkey hs b p sc H Hh Hu.
+  pose proof (seal_inj_siv_of seal C) as C'.
   unfold server_nts in H.
   destruct (decode_packet b) as [q| | |] eqn:Hd; try discriminate.
   destruct (first_cookie q) as [cb| | |] eqn:Hf; try discriminate.
